@@ -17,7 +17,7 @@ import copy
 
 from .cfg import CFG, suspension_may_raise, reaching_defs, defs_reaching, \
     _walk_no_nested
-from .inline import Inliner, acopy
+from .inline import Inliner, InlineBlock, acopy
 
 
 PURE_CALLS = {"len", "int", "bool", "abs", "min", "max"}
@@ -1065,3 +1065,48 @@ def inline_test_locals(fn):
     set_parents(out)
     out._parent = getattr(fn, "_parent", None)
     return out
+
+
+def drop_dead_stores(fn):
+    """Assignments of a side-effect-free value to a local that is never read
+    (the parameter bindings an inlined call leaves behind once their uses
+    have been written out) are removed, in place.  Returns the count."""
+    loads = set()
+    for n in ast.walk(fn):
+        if isinstance(n, ast.Name) and isinstance(n.ctx, (ast.Load,
+                                                          ast.Del)):
+            loads.add(n.id)
+    cnt = [0]
+
+    def plain(e):
+        return not any(isinstance(n, (ast.Call, ast.Await, ast.Yield,
+                                      ast.YieldFrom, ast.NamedExpr,
+                                      ast.Subscript))
+                       for n in ast.walk(e))
+
+    def block(stmts):
+        out = []
+        for s in stmts:
+            if isinstance(s, ast.Assign) and len(s.targets) == 1 and \
+                    isinstance(s.targets[0], ast.Name) and \
+                    s.targets[0].id not in loads and plain(s.value):
+                cnt[0] += 1
+                continue
+            if isinstance(s, InlineBlock):
+                s.body = block(s.body) or [ast.Pass()]
+            elif not isinstance(s, (ast.FunctionDef, ast.AsyncFunctionDef,
+                                    ast.ClassDef)):
+                for fld in ("body", "orelse", "finalbody"):
+                    sub = getattr(s, fld, None)
+                    if isinstance(sub, list) and sub and isinstance(
+                            sub[0], ast.stmt):
+                        r = block(sub)
+                        setattr(s, fld, r if (r or fld != "body")
+                                else [ast.Pass()])
+                if isinstance(s, ast.Try):
+                    for h in s.handlers:
+                        h.body = block(h.body) or [ast.Pass()]
+            out.append(s)
+        return out
+    fn.body = block(fn.body) or [ast.Pass()]
+    return cnt[0]
